@@ -47,6 +47,10 @@ type connSpec struct {
 	Segs         []segSpec `json:"segs"`
 	FinOnLast    bool      `json:"fin_on_last"`    // FIN rides on the last data segment
 	AckServerFin bool      `json:"ack_server_fin"` // the client acknowledges the listener's FIN with a pure ACK
+	// After (1-based index into Conns, 0 = none): this connection starts only when that
+	// earlier one has sent all its frames - sequential reuse of a 4-tuple (or of one that
+	// differs in a single field) after a completed connection.
+	After int `json:"after,omitempty"`
 }
 
 type scenario struct {
@@ -123,7 +127,13 @@ type connRun struct {
 	srvFin   bool
 	finAcked bool
 	acks     map[uint32]bool // every value that was the exact acknowledgement at some moment
+	chainPos int             // number of earlier connections of the scenario on the same 4-tuple
+	after    *connRun
 }
+
+func (c *connRun) done() bool { return c.next >= len(c.steps) }
+
+func (c *connRun) eligible() bool { return !c.done() && (c.after == nil || c.after.done()) }
 
 func (c *connRun) key() string {
 	return fmt.Sprintf("%s:%d>%d", c.peer.IP, c.spec.Sport, c.spec.Dport)
@@ -238,12 +248,16 @@ func (r *runner) frameOf(c *connRun, st step) ([]byte, string) {
 
 // owner finds the connection an emitted frame is addressed to.
 func (r *runner) owner(f *cl.TCPFrame) *connRun {
+	var best *connRun
 	for _, c := range r.conns {
 		if f.DstIP == c.peer.IP && f.Dport == c.spec.Sport && f.Sport == c.spec.Dport {
-			return c
+			// sequential reuse of a tuple: the frame belongs to the latest connection that has started
+			if best == nil || c.next > 0 {
+				best = c
+			}
 		}
 	}
-	return nil
+	return best
 }
 
 // absorb validates the frames drained after a step of connection cur (nil: no step, only
@@ -417,7 +431,7 @@ func (r *runner) finish() error {
 	}
 	r.k.WaitFor(deadline, func(evs []cl.Ev) bool {
 		for _, c := range r.conns {
-			if len(r.eventOf(c, evs)) == 0 {
+			if len(r.eventOf(c, evs)) <= c.chainPos {
 				return false
 			}
 		}
@@ -433,6 +447,14 @@ func (r *runner) finish() error {
 	evs := r.k.Events()
 	for _, c := range r.conns {
 		mine := r.eventOf(c, evs)
+		if len(mine) > c.chainPos {
+			mine = mine[c.chainPos:] // the events of the earlier connections on this tuple came first
+			if c.chainPos > 0 || r.hasSuccessor(c) {
+				mine = mine[:1]
+			}
+		} else {
+			mine = nil
+		}
 		if len(mine) == 0 {
 			if r.async {
 				return scheduleErr{fmt.Errorf("connection %s: no event within %v without barriers (a wake-up lost before the port handler parked delays it by 60 s)", c.key(), deadline)}
@@ -465,11 +487,47 @@ func (r *runner) finish() error {
 	return nil
 }
 
+func (r *runner) hasSuccessor(c *connRun) bool {
+	for _, x := range r.conns {
+		if x != c && x.key() == c.key() && x.chainPos > c.chainPos {
+			return true
+		}
+	}
+	return false
+}
+
 func head(b []byte) []byte {
 	if len(b) > 16 {
 		return b[:16]
 	}
 	return b
+}
+
+// build turns the scenario's connection specs into reference clients.
+func (r *runner) build(sc scenario) error {
+	last := map[string]*connRun{}
+	for i, s := range sc.Conns {
+		c, err := newConnRun(s)
+		if err != nil {
+			return fmt.Errorf("infra: bad scenario: %v", err)
+		}
+		if s.After < 0 || s.After > i {
+			return fmt.Errorf("infra: bad scenario: connection %d starts after connection %d", i+1, s.After)
+		}
+		if s.After > 0 {
+			c.after = r.conns[s.After-1]
+			r.async = false // reuse is only defined after a completed connection: needs the barriers
+		}
+		if prev := last[c.key()]; prev != nil {
+			if c.after != prev {
+				return fmt.Errorf("infra: bad scenario: connection %s twice at the same time", c.key())
+			}
+			c.chainPos = prev.chainPos + 1
+		}
+		last[c.key()] = c
+		r.conns = append(r.conns, c)
+	}
+	return nil
 }
 
 // run executes the scenario on a fresh canary in ch.
@@ -480,24 +538,15 @@ func run(l cl.Local, ch *cl.Child, sc scenario) error {
 	}
 	defer k.Close()
 	r := &runner{l: l, k: k, async: sc.Async}
-	seen := map[string]bool{}
-	for _, s := range sc.Conns {
-		c, err := newConnRun(s)
-		if err != nil {
-			return fmt.Errorf("infra: bad scenario: %v", err)
-		}
-		if seen[c.key()] {
-			return fmt.Errorf("infra: bad scenario: duplicate connection %s", c.key())
-		}
-		seen[c.key()] = true
-		r.conns = append(r.conns, c)
+	if err := r.build(sc); err != nil {
+		return err
 	}
 	for _, ci := range sc.Order {
 		if ci < 0 || ci >= len(r.conns) {
 			continue
 		}
 		c := r.conns[ci]
-		if c.next >= len(c.steps) {
+		if !c.eligible() {
 			continue
 		}
 		if err := r.stepConn(c); err != nil {
@@ -507,7 +556,7 @@ func run(l cl.Local, ch *cl.Child, sc scenario) error {
 	for more := true; more; {
 		more = false
 		for _, c := range r.conns {
-			if c.next < len(c.steps) {
+			if c.eligible() {
 				more = true
 				if err := r.stepConn(c); err != nil {
 					return err
@@ -827,6 +876,54 @@ func genScenario(rt *rapid.T, maxConns int) scenario {
 		}
 		sc.Conns = append(sc.Conns, genConn(rt, i, taken, forced))
 	}
+	// history: a new connection on the 4-tuple of a completed one (or on a tuple that
+	// differs in one field). The earlier connection is made to end the way the statement's
+	// "completed connection" does: everything pushed, FIN on its own, so that the listener
+	// has closed first and its entry went through FIN-WAIT to TIME-WAIT.
+	if rapid.IntRange(0, 2).Draw(rt, "history") == 0 {
+		reuse := rapid.IntRange(1, 3).Draw(rt, "reconnects")
+		for j := 0; j < reuse && len(sc.Conns) < 6; j++ {
+			pi := rapid.IntRange(0, len(sc.Conns)-1).Draw(rt, "reconnect-after")
+			// follow the chain to its newest member
+			for k := range sc.Conns {
+				if sc.Conns[k].After == pi+1 && sc.Conns[k].Client == sc.Conns[pi].Client && sc.Conns[k].Sport == sc.Conns[pi].Sport && sc.Conns[k].Dport == sc.Conns[pi].Dport {
+					pi = k
+				}
+			}
+			prev := &sc.Conns[pi]
+			if len(prev.Segs) == 0 {
+				continue
+			}
+			prev.Segs[len(prev.Segs)-1].PSH = true
+			prev.FinOnLast = false
+			nc := genConn(rt, len(sc.Conns), map[string]bool{}, nil)
+			nc.Client, nc.Sport = prev.Client, prev.Sport
+			if nc.Dport != prev.Dport {
+				// keep the stream matching the port's protocol: take the predecessor's port and a fresh stream of its kind
+				nc.Dport = prev.Dport
+				nc.Stream, nc.Segs = prev.Stream, append([]segSpec(nil), prev.Segs...)
+				nc.FinOnLast = false
+			}
+			switch rapid.IntRange(0, 4).Draw(rt, "differs") {
+			case 0: // other source port
+				nc.Sport = prev.Sport + 1
+				if nc.Sport == 22 || nc.Sport == 0 {
+					nc.Sport = 1025
+				}
+			case 1: // other peer
+				nc.Client = (prev.Client + 1) % len(clients)
+			}
+			key := fmt.Sprintf("%d/%d/%d", nc.Client, nc.Sport, nc.Dport)
+			same := nc.Client == prev.Client && nc.Sport == prev.Sport
+			if !same && taken[key] {
+				continue
+			}
+			taken[key] = true
+			nc.After = pi + 1
+			sc.Conns = append(sc.Conns, nc)
+		}
+		n = len(sc.Conns)
+	}
 	if n > 1 {
 		total := 0
 		for _, c := range sc.Conns {
@@ -835,6 +932,11 @@ func genScenario(rt *rapid.T, maxConns int) scenario {
 		sc.Order = rapid.SliceOfN(rapid.IntRange(0, n-1), 0, total+total/2).Draw(rt, "order")
 	}
 	sc.Async = rapid.IntRange(0, 5).Draw(rt, "async") == 0
+	for _, c := range sc.Conns {
+		if c.After > 0 {
+			sc.Async = false
+		}
+	}
 	return sc
 }
 
@@ -852,6 +954,17 @@ func fingerprint(sc scenario) (label, fp string) {
 		parts = append(parts, fmt.Sprintf("%s/%d/%s/fin-on-last=%v/%d>%d", isnClass(c.ISN), len(c.Segs), par, c.FinOnLast, c.Sport, c.Dport))
 	}
 	label = fmt.Sprintf("conns=%d", len(sc.Conns))
+	for _, c := range sc.Conns {
+		if c.After > 0 {
+			p := sc.Conns[c.After-1]
+			if p.Client == c.Client && p.Sport == c.Sport && p.Dport == c.Dport {
+				label = "history-same-tuple/" + label
+			} else {
+				label = "history-near-tuple/" + label
+			}
+			break
+		}
+	}
 	if sc.Async {
 		label += "/async"
 	}
